@@ -193,9 +193,11 @@ def rxc_keeps_listening(c, res):
         # `response` variable, which holds what earlier accepted frames produced
         if rv is not None and rv.k == 'discr' and body.locals[rv.place.local].replace(' ', '').startswith('core::option::Option<lorawan_device::mac::Response') and \
                 _mentions_hmr(rules.term_of_place(bf, rv.place)):
-            for v, tg in t.targets:
-                if v == 0:
-                    none_targets.append(tg)
+            vals = [v for v, tg in t.targets]
+            if 0 in vals:
+                none_targets += [tg for v, tg in t.targets if v == 0]
+            elif vals == [1] and t.otherwise is not None:
+                none_targets.append(t.otherwise)       # `if let Some(..) = x { .. } else { .. }`: None is the fall-through
     if opt_local is None or not rearm or not none_targets:
         raise CheckError('anchor: Class C listening loop of between_windows (option local %s, re-arm sites %d, None arms %d)' % (opt_local, len(rearm), len(none_targets)))
     leak = []
